@@ -116,8 +116,8 @@ pub fn all() -> Vec<PropInfo> {
         shards: (8, 16),
         watchdog: (600, 7200),
         rule: "mmap writer: records x k 1..=8 x delimiters of length 0..=4 x header x threads x schedule; every (pos,len,cap) logged in MMWriter::write_at must be in bounds, pairwise disjoint and tile [0,cap), cap = file size = header + n x row length, no NUL byte in the file; \
-               shards are built with debug assertions so a violated get_unchecked precondition aborts the shard (dead shard = violation, journaled case = replay); \
-               non-trivial = >= 2 records and (delimiter length != 1 or header or threads >= 2); distinct by hash of the case",
+               coverage (bin size/count 1..6 with k-mer multiplicities exactly at, just around and far beyond bin size x bin count), counting (partitions far above the number of distinct k-mers, k up to 31), k-mer CGR and the per-sequence oligo routine are executed in the same journaled child: shards are built with debug assertions so a violated get_unchecked precondition aborts the shard (dead shard = violation, journaled case = replay); \
+               non-trivial = mmap: >= 2 records and (delimiter length != 1 or header or threads >= 2); cov: multiplicity >= bin size x bin count - 1 and a valid window; ctr: >= 2 partitions; distinct by hash of the case",
         assumptions: &["an out-of-bounds read through a site without ub_checks is not observable", "the write-log hook panics before an out-of-bounds copy would happen, so the harness process is not corrupted"],
         abort_is_violation: true,
     },
@@ -140,7 +140,7 @@ pub fn all() -> Vec<PropInfo> {
         shards: (8, 16),
         watchdog: (900, 7200),
         rule: "inputs (RecGen, low-complexity weighted, all containers) x k 1..=31 x threads 1..=16 x memory ceiling derived from the input so that the run makes about 1,2,3,5,12,30 chunks (partitions follow) x acgt x schedule (free, perturbed, controlled choice vector over the counting worker's schedule points); \
-               kmers.counts parsed and compared as a map with the model multiset of canonical k-mers (no k-mer twice, nothing missing or invented), directory listing after merge(delete) = {kmers.counts}; plus contention stress (identical records, k<=3, 8-16 threads) and bounded-exhaustive schedule enumeration for small inputs; \
+               kmers.counts parsed and compared as a map with the model multiset of canonical k-mers (no k-mer twice, nothing missing or invented), directory listing after merge(delete) = {kmers.counts}; plus contention stress (identical records, k<=3, 8-16 threads), large inputs (30-200 records of up to 700 bases, k>=11: tens of thousands of distinct k-mers per partition table and chunk file) and bounded-exhaustive schedule enumeration for small inputs; \
                non-trivial = >= 2 chunks and >= 2 partitions and some k-mer with count >= 2; distinct by hash of the case",
         assumptions: &["line order of kmers.counts is not compared", "the output directory is created fresh by the harness", "interleavings inside the concurrent map are only stressed, not controlled"],
         abort_is_violation: false,
@@ -266,9 +266,4 @@ pub fn timeouts_inconclusive(ctx: &mut Ctx) {
 
 pub fn oracle_server() {
     c13::oracle_server()
-}
-
-pub fn corpus(_target: &str, _dir: &str) {
-    eprintln!("corpus not built yet");
-    std::process::exit(2);
 }
